@@ -59,7 +59,6 @@ deriving DecidableEq, Repr, Inhabited
 inductive Err where
   | lookupError          -- escapes from `_readUrl` (only `UnicodeDecodeError` is caught there) and from `parseString`
   | unicodeDecodeError   -- escapes from `parseString` for the root sheet (documented)
-  | attributeError       -- `CSSCharsetRule(encoding=bad)` leaves `_encoding` unset; `insertRule` then reads it
   | outOfFuel            -- not a Python outcome: the import chain is longer than the fuel
 deriving DecidableEq, Repr, Inhabited
 
@@ -207,9 +206,9 @@ def setEncodingRule (w : World) (rules : List RuleK) (e : Name) : Except Err (Li
   | .charset old :: rest =>
     if validName w e then .ok (.charset (lower e) :: rest) else .ok (.charset old :: rest)
   | _ =>
-    -- `insertRule(CSSCharsetRule(encoding=e), 0)`: a rejected name leaves `_encoding` unset and
-    -- `rule.wellformed` raises AttributeError (`csscharsetrule.py:55-58,177`)
-    if validName w e then .ok (.charset (lower e) :: rules) else .error .attributeError
+    -- `insertRule(CSSCharsetRule(encoding=e), 0)`: a rejected name leaves the new rule without encoding
+    -- (since fix af18c46), it is not well-formed and `insertRule` only logs 'Invalid rules cannot be added.'
+    if validName w e then .ok (.charset (lower e) :: rules) else .ok rules
 
 /-- one line of the record: what became of one `@import` that is part of the DOM -/
 structure Rec where
